@@ -5,7 +5,8 @@
    counter-clockwise by less than pi (0 < c0*s1 - s0*c1) give outward side and cap triangles; then the
    generator's angles 2*pi*k/n satisfy that for every n >= 3 (sin (2*pi/n) > 0). *)
 From PF Require Import Gen.CubeProofs.
-From Coq Require Import Reals Lra Psatz.
+From Coq Require Import Reals Lra Psatz List.
+Import ListNotations.
 Open Scope R_scope.
 
 Section Column.
@@ -102,4 +103,31 @@ Theorem cyl_normals_outward : forall (n : nat) (rad h k : R), (3 <= n)%nat -> 0 
 Proof.
   intros n rad h k Hn Hr Hh. cbv zeta. destruct (angle_step n k Hn) as [A1 A2].
   apply (column_normals_outward rad h _ _ _ _ Hr Hh). apply turn_sincos; assumption.
+Qed.
+
+(* ---- volume: the four triangles of one column (two side triangles, one wedge of either cap) contribute exactly the
+        wedge of the inscribed prism, 6 * (1/2 * rad^2 * sin(2*pi/n) * h), to the divergence sum; the n columns together
+        give 6 * (n/2 * rad^2 * sin(2*pi/n) * h) ---- *)
+Theorem column_volume : forall rad h c0 s0 c1 s1 : R,
+  let T0 : rvec := (c0 * rad, h / 2, s0 * rad) in let B0 : rvec := (c0 * rad, - (h / 2), s0 * rad) in
+  let T1 : rvec := (c1 * rad, h / 2, s1 * rad) in let B1 : rvec := (c1 * rad, - (h / 2), s1 * rad) in
+  rvol6 [(B0, T0, T1); (B0, T1, B1); (T0, (0, h / 2, 0), T1); (B1, (0, - (h / 2), 0), B0)]
+  = 6 * (1 / 2 * rad * rad * (c0 * s1 - s0 * c1) * h).
+Proof. intros rad h c0 s0 c1 s1. cbv zeta. unfold rvol6. cbn [fold_right]. unfold rdet3, rdot, rcross. field. Qed.
+
+Theorem cyl_column_volume : forall (n : nat) (rad h k : R), (3 <= n)%nat ->
+  let inc := 1 / INR n * 2 * PI in
+  let a0 := inc * k in let a1 := inc * (k + 1) in
+  let T0 : rvec := (cos a0 * rad, h / 2, sin a0 * rad) in let B0 : rvec := (cos a0 * rad, - (h / 2), sin a0 * rad) in
+  let T1 : rvec := (cos a1 * rad, h / 2, sin a1 * rad) in let B1 : rvec := (cos a1 * rad, - (h / 2), sin a1 * rad) in
+  rvol6 [(B0, T0, T1); (B0, T1, B1); (T0, (0, h / 2, 0), T1); (B1, (0, - (h / 2), 0), B0)]
+  = 6 * (1 / 2 * rad * rad * sin (2 * PI / INR n) * h).
+Proof.
+  intros n rad h k Hn. cbv zeta. rewrite column_volume.
+  assert (H3 : 3 <= INR n) by (replace 3 with (INR 3) by (simpl; lra); apply le_INR; exact Hn).
+  replace (cos (1 / INR n * 2 * PI * k) * sin (1 / INR n * 2 * PI * (k + 1)) -
+           sin (1 / INR n * 2 * PI * k) * cos (1 / INR n * 2 * PI * (k + 1)))
+    with (sin (1 / INR n * 2 * PI * (k + 1) - 1 / INR n * 2 * PI * k)) by (rewrite sin_minus; ring).
+  replace (1 / INR n * 2 * PI * (k + 1) - 1 / INR n * 2 * PI * k) with (2 * PI / INR n) by (field; lra).
+  reflexivity.
 Qed.
